@@ -151,6 +151,39 @@ def handle : Handler := fun m j =>
         ("disjoint", Json.bool (disjTops w nv tops)),
         ("wellOwned", Json.bool (tops.all (fun t => wellOwnedB w.inits t.tr []))),
         ("ownedDisjoint", Json.bool (tops.all (fun t => pairwiseDisjoint (ownedLists w.inits t.tr))))])
+  | "names.fixx" => some do
+      -- NameFixPass with a generator (`gen`: "simple" | {"const": s} | {"v": [[id, answer]..], "n": [[id, answer]..]},
+      -- a table falls back to the simple generator) and backing tensors
+      let (w, nv, nn, ng) ← parseWorld j
+      let tops ← (← getArr j "tops").mapM parseTop
+      let co ← (getOptNats j "constOf" <|> pure [])
+      let tn ← (getOptStrs j "tnames" <|> pure [])
+      let fz ← (getNats j "frozen" <|> pure [])
+      let tw : TWorld := { toWorld := w, constOf := fun i => co.getD i none, tname := fun t => tn.getD t none,
+                           frozen := fun t => fz.contains t }
+      let gj := (j.getObjVal? "gen").toOption.getD (Json.str "simple")
+      let gen : NameGen ← match gj with
+        | .str _ => pure simpleGen
+        | gj => match gj.getObjVal? "const" with
+          | .ok c => do
+            let c ← c.getStr?
+            pure { v := fun _ _ => c, n := fun _ _ => c }
+          | .error _ => do
+            let tv ← (← getArr gj "v").mapM parsePair
+            let tnn ← (← getArr gj "n").mapM parsePair
+            pure { v := fun i nm => (tv.lookup i).getD (simpleGen.v i nm),
+                   n := fun i nm => (tnn.lookup i).getD (simpleGen.n i nm) }
+      let r := fixModelX gen tw [] tops
+      let r0 := fixModel w tops
+      let plainEq := (List.range nv).all (fun i => r.w.vname i == r0.1.vname i)
+        && (List.range nn).all (fun i => r.w.nname i == r0.1.nname i)
+        && (List.range ng).all (fun g => r.w.dicts g == r0.1.dicts g)
+        && r.modified == r0.2.1 && r.raised == r0.2.2
+      return obj (worldJ r.w.toWorld nv nn ng ++ [("modified", Json.bool r.modified), ("raised", Json.bool r.raised),
+        ("tnames", Json.arr ((List.range tn.length).map fun t => optStrJ (r.w.tname t)).toArray),
+        ("glog", Json.arr (r.glog.reverse.map fun e => Json.arr #[Json.bool e.1, toJson e.2]).toArray),
+        ("initsOk", Json.bool (initsOkB w nv ng)), ("initsOkAfter", Json.bool (initsOkB r.w.toWorld nv ng)),
+        ("plainEq", Json.bool plainEq)])
   | "names.rename" => some do
       let (w, nv, nn, ng) ← parseWorld j
       let pairs ← (← getArr j "pairs").mapM parsePair
